@@ -462,6 +462,10 @@ class SimpleJSONRPCDispatcher(SimpleXMLRPCDispatcher, object):
                     except AttributeError:
                         # Unknown method
                         pass
+                    else:
+                        if not callable(func):
+                            # A public attribute is not a method
+                            func = None
                 else:
                     # An AttributeError raised by the call itself is a
                     # method error, not a missing dispatcher
